@@ -2,25 +2,25 @@ package main
 
 import (
 	"fmt"
-	"strings"
 	"go/types"
 	"sort"
+	"strings"
 
 	"golang.org/x/tools/go/ssa"
 )
 
 type Event struct {
-	Kind    string // recv send close ctxdone call go default make timer
-	Chan    *Term
-	Val     Val
-	OK      *Term
-	Fn      string
-	Args    []Val
+	Kind     string // recv send close ctxdone call go default make timer
+	Chan     *Term
+	Val      Val
+	OK       *Term
+	Fn       string
+	Args     []Val
 	ArgNames []string // go of a closure: names of the captured variables (parallel to the leading Args)
-	Res     []Val
-	Guarded bool // part of a select that also waits on ctx.Done (or the ctxdone case itself)
+	Res      []Val
+	Guarded  bool // part of a select that also waits on ctx.Done (or the ctxdone case itself)
 	InSelect bool
-	Pos     string
+	Pos      string
 }
 
 func (e *Event) String() string {
@@ -51,69 +51,70 @@ type localRef struct {
 }
 
 type deferRec struct {
-	call *ssa.CallCommon
-	args []Val
-	fn   Val
+	call  *ssa.CallCommon
+	args  []Val
+	fn    Val
 	instr ssa.Instruction
 }
 
 type loopCtx struct {
-	head     *ssa.BasicBlock
-	visits   int
-	cut      bool
-	headHeap map[string]*Term // heap right after havoc+assume (for the loop frame check)
+	head      *ssa.BasicBlock
+	visits    int
+	cut       bool
+	headHeap  map[string]*Term // heap right after havoc+assume (for the loop frame check)
 	headAlloc *Term
 }
 
 type Frame struct {
-	fn      *ssa.Function
-	spec    *FuncSpec
-	blk     *ssa.BasicBlock
-	idx     int
-	prev    *ssa.BasicBlock
-	vals    map[ssa.Value]Val
-	locals  map[string]localRef
-	callOrd map[string]int
-	retOrd  int
-	defers  []deferRec
-	loops   map[*ssa.BasicBlock]*loopCtx
-	callInstr ssa.Instruction // call site in the caller frame (nil for the unit)
-	deferred bool            // frame runs as a deferred call: results are dropped
+	fn            *ssa.Function
+	spec          *FuncSpec
+	blk           *ssa.BasicBlock
+	idx           int
+	prev          *ssa.BasicBlock
+	vals          map[ssa.Value]Val
+	locals        map[string]localRef
+	callOrd       map[string]int
+	retOrd        int
+	defers        []deferRec
+	loops         map[*ssa.BasicBlock]*loopCtx
+	callInstr     ssa.Instruction // call site in the caller frame (nil for the unit)
+	deferred      bool            // frame runs as a deferred call: results are dropped
 	runningDefers bool
-	results []Val
-	oldHeap map[string]*Term
-	oldGlobals map[*ssa.Global]Val
-	oldAlloc *Term
-	params  map[string]Val
-	unit    bool
-	depth   int
-	afterReturn func(st *State, caller *Frame, res []Val) bool // special continuation (sort.Search closure evaluation)
-	anchorName string
-	anchorOrd  int
+	results       []Val
+	oldHeap       map[string]*Term
+	oldGlobals    map[*ssa.Global]Val
+	oldAlloc      *Term
+	params        map[string]Val
+	unit          bool
+	depth         int
+	afterReturn   func(st *State, caller *Frame, res []Val) bool // special continuation (sort.Search closure evaluation)
+	anchorName    string
+	anchorOrd     int
 }
 
 type State struct {
-	frames  []*Frame
-	heap    map[string]*Term
-	globals map[*ssa.Global]Val
-	facts   []*Term
-	events  []*Event
-	alloc   *Term
-	path    []string
-	segStart string // cut point where the current segment started: "entry" or "loop k"
-	segHeap  map[string]*Term // heap at the start of the current segment (for pre(...) in rows)
-	segLocals map[string]Val  // values of the unit frame's value-locals (loop phis) at the start of the segment
-	segSpec  *FuncSpec
-	cancelled bool
-	notes   []string
+	frames         []*Frame
+	heap           map[string]*Term
+	globals        map[*ssa.Global]Val
+	facts          []*Term
+	events         []*Event
+	alloc          *Term
+	path           []string
+	segStart       string           // cut point where the current segment started: "entry" or "loop k"
+	segHeap        map[string]*Term // heap at the start of the current segment (for pre(...) in rows)
+	birth          map[string]*Term // heap map term (by key) -> allocation watermark when that version came into being (shared by all clones)
+	segLocals      map[string]Val   // values of the unit frame's value-locals (loop phis) at the start of the segment
+	segSpec        *FuncSpec
+	cancelled      bool
+	notes          []string
 	resultsForRows []Val
-	noObl int // >0: obligations are suppressed (evaluation under a bound variable)
+	noObl          int // >0: obligations are suppressed (evaluation under a bound variable)
 }
 
 func (st *State) top() *Frame { return st.frames[len(st.frames)-1] }
 
 func (st *State) clone() *State {
-	n := &State{heap: map[string]*Term{}, globals: map[*ssa.Global]Val{}, alloc: st.alloc, segStart: st.segStart, segHeap: st.segHeap, segLocals: st.segLocals, segSpec: st.segSpec, cancelled: st.cancelled, noObl: st.noObl}
+	n := &State{heap: map[string]*Term{}, globals: map[*ssa.Global]Val{}, alloc: st.alloc, segStart: st.segStart, segHeap: st.segHeap, birth: st.birth, segLocals: st.segLocals, segSpec: st.segSpec, cancelled: st.cancelled, noObl: st.noObl}
 	for k, v := range st.heap {
 		n.heap[k] = v
 	}
@@ -159,12 +160,43 @@ func (st *State) assume(t *Term) {
 
 // ---- heap ----
 
+// Heap maps that were never touched are denoted by an initial symbol name@<epoch>. The epoch is stored in the
+// heap map itself (keys starting with "\x00"), so that snapshots carry it: a wholesale havoc ("the callee may
+// write anything") bumps the global epoch, a havoc of all element arrays bumps the element epoch, a havoc of a
+// single untouched map bumps that map's own epoch. Epoch 0 everywhere gives the plain name@0.
+func heapEpoch(h map[string]*Term, name string) string {
+	num := func(k string) int64 {
+		if t, ok := h[k]; ok && t.IsNum() {
+			return t.Num.Int64()
+		}
+		return 0
+	}
+	g, e, n := num("\x00ep"), int64(0), num("\x00n:"+name)
+	if strings.HasPrefix(name, "E.") {
+		e = num("\x00epE")
+	}
+	if g == 0 && e == 0 && n == 0 {
+		return "0"
+	}
+	return fmt.Sprintf("%d.%d.%d", g, e, n)
+}
+
 func (st *State) heapGet(name string, s Sort) *Term {
 	if t, ok := st.heap[name]; ok {
 		return t
 	}
-	t := Sym(sanitize(name)+"@0", s)
+	ep := heapEpoch(st.heap, name)
+	t := Sym(sanitize(name)+"@"+ep, s)
 	st.heap[name] = t
+	if st.birth != nil {
+		if _, ok := st.birth[t.Key()]; !ok {
+			if ep == "0" {
+				st.birth[t.Key()] = Sym("alloc@0", SInt)
+			} else {
+				st.birth[t.Key()] = st.alloc
+			}
+		}
+	}
 	return t
 }
 
@@ -172,19 +204,80 @@ func heapGetIn(h map[string]*Term, name string, s Sort) *Term {
 	if t, ok := h[name]; ok {
 		return t
 	}
-	// never touched since the snapshot: the initial symbol
-	return Sym(sanitize(name)+"@0", s)
+	// never touched up to the snapshot: the initial symbol of the snapshot's epoch
+	return Sym(sanitize(name)+"@"+heapEpoch(h, name), s)
 }
 
-func (st *State) heapSet(name string, t *Term) { st.heap[name] = t }
+func bumpEpoch(h map[string]*Term, key string) {
+	n := int64(0)
+	if t, ok := h[key]; ok && t.IsNum() {
+		n = t.Num.Int64()
+	}
+	h[key] = Num(n + 1)
+}
+
+// havocAll: every heap map (touched or not) becomes unknown
+func (st *State) havocAll() {
+	for k := range st.heap {
+		if !strings.HasPrefix(k, "\x00") {
+			delete(st.heap, k)
+		}
+	}
+	bumpEpoch(st.heap, "\x00ep")
+}
+
+// havocElems: every element-array map becomes unknown
+func (st *State) havocElems() {
+	for k := range st.heap {
+		if strings.HasPrefix(k, "E.") {
+			delete(st.heap, k)
+		}
+	}
+	bumpEpoch(st.heap, "\x00epE")
+}
+
+// havocNames: havoc the maps of a static write set ("*" = everything, "E.*" = all element arrays)
+func (st *State) havocNames(w map[string]bool) {
+	if w["*"] {
+		st.havocAll()
+		return
+	}
+	if w["E.*"] {
+		st.havocElems()
+	}
+	for n := range w {
+		if n != "E.*" {
+			st.havocHeap(n)
+		}
+	}
+}
+
+func (st *State) heapSet(name string, t *Term) {
+	st.heap[name] = t
+	if st.birth != nil {
+		st.birth[t.Key()] = st.alloc
+	}
+}
+
+// rebirth: heap maps that changed since `old` may now hold references up to the current watermark
+func (st *State) rebirth(old map[string]*Term) {
+	if st.birth == nil {
+		return
+	}
+	for k, t := range st.heap {
+		if strings.HasPrefix(k, "\x00") {
+			continue
+		}
+		if o, ok := old[k]; !ok || o != t {
+			st.birth[t.Key()] = st.alloc
+		}
+	}
+}
 
 func (st *State) havocHeap(name string) {
 	cur, ok := st.heap[name]
 	if !ok {
-		// determine sort from the initial symbol if known
-		if s, ok2 := symTab[sanitize(name)+"@0"]; ok2 {
-			st.heap[name] = Fresh(name, s)
-		}
+		bumpEpoch(st.heap, "\x00n:"+name)
 		return
 	}
 	st.heap[name] = Fresh(name, cur.S)
@@ -193,7 +286,9 @@ func (st *State) havocHeap(name string) {
 func (st *State) heapNames() []string {
 	var ns []string
 	for k := range st.heap {
-		ns = append(ns, k)
+		if !strings.HasPrefix(k, "\x00") {
+			ns = append(ns, k)
+		}
 	}
 	sort.Strings(ns)
 	return ns
